@@ -24,7 +24,7 @@ ASSUMPTIONS = ["a disconnect request is only issued while a connection is up or 
                "the real socket/asyncore dispatchers are driven through 6 scripted lifecycles each over loopback TCP (peer close, local disconnect, refused connect, login failure, stream error with automatic reconnect, re-login); a bare timeout there is reported as a violation only together with the observed announcement counts"]
 REQUIRED = ["pong_race_histories", "pong_delivered_inside_ping_send", "race_sweep_histories", "tick_race_paused_mid_step", "histories", "events", "checkpoints", "ev:connected", "ev:success", "ev:failure", "ev:stream-error", "ev:tick", "ev:pong",
             "ev:connected-held", "ev:connect-request-while-up", "ev:release-handshake", "ev:socket-error", "ev:peer-close", "ev:disconnect-request", "auto_reconnects", "ping_timeouts", "pings_seen", "states_visited",
-            "real_cases", "real_ok", "real_upward_failure_cases", "real_upward_failure_ok", "stream_error_text_first"]
+            "real_cases", "real_ok", "real_upward_failure_cases", "real_upward_failure_ok", "stream_error_text_first", "failures_without_reason"]
 TIMEOUT = {"quick": 600, "thorough": 7200}
 
 
@@ -401,7 +401,11 @@ def one_history(acc, seed, tag, forced=None):
             elif ev == "failure":
                 if r.random() < 0.4:
                     W.trailing[A] = partial_frame(r)
-                W.server.to_client(A, ("failure", {"reason": "not-authorized"}, [], None))
+                # (with a reason code, with a reason word, or bare)
+                fa_ = r.choice([{"reason": "not-authorized"}, {"reason": "401"}, {}, {}])
+                if not fa_:
+                    acc.count("failures_without_reason")
+                W.server.to_client(A, ("failure", fa_, [], None))
             elif ev.startswith("stream-error"):
                 if r.random() < 0.4:
                     W.trailing[A] = partial_frame(r)
